@@ -287,11 +287,14 @@ class CacheRun(object):
                 self.rep.notes.append('deviation %s: TLC found no counterexample (model insensitive?)' % d)
 
     # -- step 2/3
-    def add_behaviours(self, consts, behaviours, origin='tlc', matrix=None, wide=False):
+    def add_behaviours(self, consts, behaviours, origin='tlc', matrix=None, wide=False, limit=None):
         matrix = matrix or self.matrix(consts, wide=wide)
-        for (ops, pred) in behaviours:
+        for bi, (ops, pred) in enumerate(behaviours):
             self.behaviours += 1
-            for (module, backend, keymap, unkey) in matrix:
+            mx = matrix
+            if limit and len(matrix) > limit:        # a rotating window of the matrix per behaviour
+                mx = [matrix[(bi * limit + j) % len(matrix)] for j in range(limit)]
+            for (module, backend, keymap, unkey) in mx:
                 cfg = real_cfg(consts, module, backend, keymap, unkey=unkey)
                 cfg['origin'] = origin
                 # predictions only apply to deterministic algorithms and to the std alphabet
@@ -340,53 +343,64 @@ class CacheRun(object):
         self.gen_states += st
         if not exhaustive and len(beh) > num:
             beh = beh[:num]
-        self.add_behaviours(consts, beh)
+        # the complete enumerations are large: each sequence meets a rotating quarter of the configuration matrix
+        self.add_behaviours(consts, beh, limit=4 if exhaustive else None)
         return len(beh)
 
     # -- step 3/4/5
     def finish(self, extra_traces=(), level='model_checking', assumptions=()):
         self.deviation_runs()
-        t0 = time.time()
-        traces = replay_all(self.jobs) + list(extra_traces)
-        t_replay = time.time() - t0
-        usable = [t for t in traces if t is not None]
-        verdicts, st = common.validate_traces('CacheTrace', [_strip(t) for t in usable], [self.pid])
-        rejected = 0
-        ndrift = 0
-        for t, v in zip(usable, verdicts):
-            if v is not None:
-                rejected += 1
-                sig = signature(t, v)
-                self.rep.reject(sig, {'config': t['meta']['config'], 'ops': t['meta']['ops'],
-                                      'event_index': v[0], 'clauses': v[1], 'event': t['events'][v[0] - 1],
-                                      'replay': 'cache'})
-            elif t['meta'].get('drift'):
-                ndrift += 1
-                self.rep.note_drift('real code differs from layer I but layer P accepts: %s %s' % (
-                    t['meta']['config'], t['meta']['drift']))
+        # replay and validate in batches: a thorough run has several hundred thousand (configuration, sequence) pairs and
+        # must not hold all their traces in memory at once
+        CH = int(os.environ.get('VERIF_BATCH', '40000'))
+        t_replay = t_valid = 0.0
+        ntraces = nevents = nstates = rejected = ndrift = nontriv = 0
         hashes = set()
-        nontriv = 0
-        for t in usable:
-            h = common.trace_hash([t['cfg'], t['events']])
-            if h not in hashes:
-                hashes.add(h)
-                if nontrivial(t):
-                    nontriv += 1
         sample = None
-        for t in usable:
-            if nontrivial(t):
-                sample = {'config': t['meta']['config'], 'ops': t['meta']['ops'][:12],
-                          'events': [{k: e[k] for k in ('op', 'a', 'ret', 'exc', 'ev', 'mem', 'info') if k in e}
-                                     for e in t['events'][:6]]}
-                break
+        jobs, self.jobs = self.jobs, []
+        extra = list(extra_traces)
+        for lo in range(0, max(1, len(jobs)), CH):
+            t0 = time.time()
+            traces = replay_all(jobs[lo:lo + CH])
+            if lo == 0:
+                traces += extra
+            t_replay += time.time() - t0
+            usable = [t for t in traces if t is not None]
+            verdicts, st = common.validate_traces('CacheTrace', [_strip(t) for t in usable], [self.pid])
+            t_valid += st['wall']
+            ntraces += len(usable)
+            nevents += st['events']
+            nstates += st['states']
+            for t, v in zip(usable, verdicts):
+                if v is not None:
+                    rejected += 1
+                    sig = signature(t, v)
+                    self.rep.reject(sig, {'config': t['meta']['config'], 'ops': t['meta']['ops'],
+                                          'event_index': v[0], 'clauses': v[1], 'event': t['events'][v[0] - 1],
+                                          'replay': 'cache'})
+                elif t['meta'].get('drift'):
+                    ndrift += 1
+                    self.rep.note_drift('real code differs from layer I but layer P accepts: %s %s' % (
+                        t['meta']['config'], t['meta']['drift']))
+            for t in usable:
+                h = common.trace_hash([t['cfg'], t['events']])
+                if h not in hashes:
+                    hashes.add(h)
+                    if nontrivial(t):
+                        nontriv += 1
+                        if sample is None:
+                            sample = {'config': t['meta']['config'], 'ops': t['meta']['ops'][:12],
+                                      'events': [{k: e[k] for k in ('op', 'a', 'ret', 'exc', 'ev', 'mem', 'info') if k in e}
+                                                 for e in t['events'][:6]]}
+            del traces, usable, verdicts
         mc_states = sum(r['distinct'] for r in self.mc)
         mc_trans = sum(r['generated'] for r in self.mc)
         cov = {
-            'states': mc_states + st['states'],
-            'transitions': mc_trans + self.gen_states + st['events'],
-            'traces_validated_against_impl': len(usable),
+            'states': mc_states + nstates,
+            'transitions': mc_trans + self.gen_states + nevents,
+            'traces_validated_against_impl': ntraces,
             'samples': [sample] if sample else [{'note': 'no non-trivial trace'}],
-            'evaluations': len(usable),
+            'evaluations': ntraces,
             'distinct_nontrivial': nontriv,
             'rule': 'one evaluation = one operation sequence replayed on one real decorator configuration and '
                     'validated against layer P; distinct by hash of (config, events); non-trivial = contains an '
@@ -398,8 +412,8 @@ class CacheRun(object):
                                'behaviours_generated': self.behaviours,
                                'named_deviations': self.deviations,
                                'generation_states': self.gen_states},
-            'trace_validation': {'traces': len(usable), 'events': st['events'], 'rejected': rejected,
-                                 'states': st['states'], 'wall_s': round(st['wall'], 1),
+            'trace_validation': {'traces': ntraces, 'events': nevents, 'rejected': rejected,
+                                 'states': nstates, 'wall_s': round(t_valid, 1),
                                  'replay_wall_s': round(t_replay, 1), 'drift_traces': ndrift},
         }
         cov.update(self.extra_cov)
